@@ -164,7 +164,9 @@ void* __wrap_channel_write_map(struct channel* ch, size_t n)
     if (idx >= 0 && p && ch->cycle != c0) atomic_fetch_add(&g_wraps[idx], 1);
     return p;
 }
-void __wrap_channel_write_unmap(struct channel* ch) { maybe_delay(2); __real_channel_write_unmap(ch); }
+// a delay right after the commit widens the window in which a reader can see a frame that the
+// writer still touches after having published it
+void __wrap_channel_write_unmap(struct channel* ch) { maybe_delay(2); __real_channel_write_unmap(ch); maybe_delay(5); }
 struct slice __wrap_channel_read_map(struct channel* ch, struct channel_reader* r) { maybe_delay(3); return __real_channel_read_map(ch, r); }
 void __wrap_channel_read_unmap(struct channel* ch, struct channel_reader* r, size_t n) { maybe_delay(4); __real_channel_read_unmap(ch, r, n); }
 
